@@ -57,9 +57,10 @@ prop('C06', contracts=[],
      technique='not decided deductively yet: bounded histories on a real shelve store (labelled bounded)',
      explanation='BOUNDED ONLY: store/load histories against a dictionary model written from the statement; no obligation is discharged for this property',
      assumptions=[A3, A6, A7, A8])
-prop('C07', contracts=[],
-     technique='not decided deductively yet: bounded crash injection on a real shelve store (labelled bounded)',
-     explanation='BOUNDED ONLY: digest naming, novelty flag, single copy and no dangling reference after every operation and after a crash at every file-system/table call of one update',
+prop('C07', contracts=['c07_store'],
+     technique=TECH + 'db.util.move and the Func.set branch of comms.Worker.do proved over an abstract file system with a statement-boundary (crash point) invariant; the novelty reports of Interface._update/_update_msv by loop invariants; real crash injection as bounded stand-in',
+     explanation='PROVED: db.util.move answers `exists` = a file of that name was stored before, stores the staged content under the name otherwise, never overwrites content already stored (identical content kept once), and removes the staging file; comms.Worker.do(Func.set) keeps "every catalogue entry refers to a stored file" true AFTER EVERY STATEMENT (so a crash between any two steps leaves no dangling reference) and answers the client with that `exists`; Connector._set_prime returns the server\'s answer; Interface._update and _update_msv report each value as new exactly when the store answered that its content did not exist. BOUNDED ONLY: the name is the md5_sha1 digest of the bytes (db.util.encode runs md5sum/sha1sum), tools/purge.py, crashes inside a step.',
+     trusted_base=['os.path.exists/os.unlink/shutil.move as atomic operations on an abstract store (A6)', 'one request/response round trip Connector.__do -> Worker.do'],
      assumptions=[A6, A7])
 prop('C08', contracts=['c08_catalogue'],
      technique=TECH + 'shelve.util.construct/subset proved, exact-addressing string lemma by cvc5/z3; histories with prefix-colliding names on a real store as bounded stand-in',
